@@ -397,6 +397,52 @@ def main():
     rewritten = range(nrew)
     if len(samples) < 3:
       samples.append({'recipe': desc, 'rewritten_constants': nrew})
+  # ---- probe: EVERY float-compute weight config (4/8 bit x symmetric or not x per
+  # channel or per tensor x dynamic-range or weight-only) on the two weight ops whose
+  # hybrid / dequantize kernels are simplest: whatever the library ACCEPTS must run and
+  # satisfy C06 (configs it refuses are skipped) ----
+  from ai_edge_quantizer import qtyping as _q
+  for opn, gkind in (('FULLY_CONNECTED', 'FULLY_CONNECTED'), ('EMBEDDING_LOOKUP', 'EMBEDDING_LOOKUP')):
+    pm = None
+    for _try in range(10):
+      cand, _i = gg.gen_model(rng, n_subgraphs=1, max_ops=1, op_weights=[gkind])
+      mm = og.read(cand)
+      if [mm.operatorCodes[o.opcodeIndex].builtinCode for o in mm.subgraphs[0].operators] == [getattr(gg.B, gkind)]:
+        pm = cand
+        break
+    if pm is None:
+      continue
+    for bits in (4, 8):
+      for sym in (True, False):
+        for gran in (_q.QuantGranularity.CHANNELWISE, _q.QuantGranularity.TENSORWISE):
+          for dyn in (True, False):
+            cfg = _q.OpQuantizationConfig(
+                None, _q.TensorQuantizationConfig(bits, sym, gran),
+                _q.ComputePrecision.INTEGER if dyn else _q.ComputePrecision.FLOAT, not dyn)
+            qt = quantizer.Quantizer(bytearray(pm))
+            desc = f'{opn} {"dynamic" if dyn else "weight-only"} {bits} bit {"sym" if sym else "asym"} {gran.value}'
+            try:
+              qt.update_quantization_recipe('.*', opn, cfg, 'min_max_uniform_quantize')
+            except ValueError:
+              dist['probe_refused'] += 1
+              continue
+            dist['probe_accepted'] += 1
+            inp = {'recipe': desc, 'model_hex': pm.hex() if len(pm) < 30000 else None}
+            try:
+              out = qt.quantize().quantized_model
+            except Exception as e:  # pylint: disable=broad-except
+              viol.append({'key': f'C06:accepted-config-quantize-raises:{opn}', 'what':
+                           f'{desc}: accepted, then quantize() raises {type(e).__name__}: {str(e)[:120]}', 'input': inp})
+              continue
+            data = gg.random_inputs(pm, rng, 1)
+            feed = {key: v[0] for key, v in data.items()}
+            r_ = og.run_interpreter(out, feed)
+            if r_[0] != 'ok':
+              viol.append({'key': f'C06:accepted-config-fails-at-runtime:{opn}', 'what':
+                           f'{desc}: accepted, but the interpreter fails on the result: {str(r_[1])[:160]}', 'input': inp})
+              continue
+            v2, _n = check_case(qt, pm, out, feed, inp, dist, ratios)
+            viol += v2
   out = {
       'interface': 'oracle:C06-runtime', 'evaluations': dist['cases'],
       'distinct_nontrivial': len(nontrivial), 'n_mismatches': 0, 'mismatches': [],
